@@ -1,5 +1,5 @@
 #!/usr/bin/env python3
-"""Ingests one wave of sub-agent output:  wave_ingest.py <worktree base> <confirm log number>
+"""Ingests one wave of sub-agent output:  wave_ingest.py <worktree base> <confirm log number> ["C01 C02 ..."]
 
 <base>/<Cxx>/_out/m1.. hold patch.diff, a demonstration and meta.json; <base>/confirm-*.log hold lines
 "<Cxx> <mN>: suite(pass/fail)=... demo_with_mutation_rc=... demo_without_rc=..." (lib/confirm_seeded2.sh, or by hand
@@ -13,6 +13,7 @@ import subprocess
 import sys
 
 base, num = sys.argv[1], sys.argv[2]
+only = sys.argv[3].split() if len(sys.argv) > 3 else None
 lines, ids, problems = [], [], []
 confirm = {}
 for lf in sorted(glob.glob(base + "/confirm-*.log")):
@@ -21,6 +22,8 @@ for lf in sorted(glob.glob(base + "/confirm-*.log")):
         if m:
             confirm.setdefault((m.group(1), m.group(2)), l)
 for p in ["C%02d" % i for i in range(1, 21)]:
+    if only and p not in only:
+        continue
     existing = len(glob.glob("/verif/seeded/%s-m*" % p))
     k = 0
     for m in sorted(os.listdir(base + "/" + p + "/_out")) if os.path.isdir(base + "/" + p + "/_out") else []:
